@@ -1,9 +1,14 @@
 """C07 - Mode lifecycle is well-formed and leaves nothing behind.
 
 SUT: real ModeController / Mode / ConfigPlayers / mode devices of the machine in /verif/machines/c07
-(eight modes: plain, hi, lo, wq (use_wait_queue), dev (counters, accrual, timers, combo switch),
+(nine modes: plain, hi, lo, wq (use_wait_queue), dev (counters, accrual, timers, combo switch),
 players (event/variable/light/show/coil/queue_relay players, conditional and subscription entries),
-coded (custom Mode subclass registering delays, switch handlers, event handlers), gm (game mode, must be refused)).
+coded (custom Mode subclass registering delays, switch handlers, event handlers), gm (plain game mode), gshots (game mode
+with persisted devices: three shots (persist_enable default and off, start_enabled and enabled by event, delay_switch,
+enable/disable/restart/reset/advance/hit events), a shot group, a persisted counter, a timer; started by ball_started)).
+In 40 % of the runs a device-less game is played (as mpf/tests/MpfFakeGameTestCase.py: playfield.add_ball replaced, balls
+end through the ball_drain relay event): start by start button, add player, drain (ball end auto-stops the game modes, the
+next ball restarts gshots), end_game, new game; redundant enable/disable/restart events and switch hits on the shots.
 
 Workload: a generated history of start/stop requests (direct, by event, by queue event, grouped, bursts in one
 instant), trigger events for everything the modes registered, machine-variable flips, switch changes, and *hooks*:
@@ -22,7 +27,8 @@ Oracle (written from the statement):
   request_ignored  a request issued at a quiet instant (nothing queued on the bus) to a settled mode must be accepted:
                    start of a stopped mode -> will_start, stop of an active mode -> will_stop (direct: synchronously,
                    by event: within the same dispatch).  Requests issued from handlers are only judged by the other rules.
-  refused          a game mode outside a game never posts a lifecycle event.
+  refused          a game mode is not started while no game / no player turn is running (and is, when asked at a quiet
+                   instant inside a running turn: request_ignored).
   liveness         after the last hold has been cleared and the loop ran fault-free for a bound derived from the
                    longest hold, no mode is left between two states.
   callbacks        start(callback=) / stop(callback=) / post_queue(start_<m>, callback) complete exactly once when
@@ -37,6 +43,10 @@ Oracle (written from the statement):
                    e.g. done-callbacks of cancelled futures, is given the rest of that instant).
                    R4: the switch controller's wake-up timer for timed handlers may stay scheduled with nothing to do.
                    R6: empty containers (instances['show_<n>'] = {}, blocks[x] = []) are not registrations.
+                   R7: while a game runs (or starts/ends) the rest of the machine legitimately differs from the snapshot
+                   taken before the game; then only the items that mention a test mode or one of its devices are compared
+                   (they must be exactly those of the pre-start snapshot).  After the game ended and attract is back
+                   the full comparison applies again.
   fired_inactive   a handler/delay/switch handler registered by the custom mode code runs while the mode is not active
                    (relaxation R5: not judged in the very instant in which mode_<m>_stopped is posted - the stop completes
                    when that event has been dispatched).
@@ -54,10 +64,11 @@ from checks import _c07_helpers as H
 
 ID = "C07"
 LEVEL = "exploration"
-RUNS = {"quick": 1500, "thorough": 36000}
+RUNS = {"quick": 1200, "thorough": 30000}
 WALL_CAP = {"quick": 150, "thorough": 3000}
 RULE = ("one case = one generated history (3-45 operations, 0-4 hooks on lifecycle events with scripted reactions) of "
-        "start/stop requests over 8 modes, driven through the real Mode/ModeController/ConfigPlayer code under a seeded "
+        "start/stop requests over 9 modes (40 % of the cases inside a device-less game with ball ends, player changes "
+        "and game ends), driven through the real Mode/ModeController/ConfigPlayer code under a seeded "
         "scheduler; non-trivial = reached at least one reach probe (request during a transition, request from a lifecycle "
         "handler, hold on a queue event, op exactly on a pending MPF timer, registry compared after a completed stop ...); "
         "distinct = distinct sequence of observed event kinds")
@@ -72,12 +83,14 @@ PROBES = ["start_while_starting", "start_while_stopping", "stop_while_starting",
 REAL = ["mpf.core.mode.Mode", "mpf.core.mode_controller.ModeController", "mpf.core.config_player.ConfigPlayer and the "
         "event/variable/light/show/coil/queue_relay players", "mpf.core.mode_device / logic blocks / timers / combo_switch",
         "mpf.core.events.EventManager", "mpf.core.delays.DelayManager", "mpf.core.switch_controller", "MachineController boot",
-        "custom mode code (machines/c07/modes/coded/code/coded.py)"]
+        "custom mode code (machines/c07/modes/coded/code/coded.py)", "mpf.modes.game / attract (device-less game)",
+        "mpf.devices.shot / shot_group, EnableDisableMixin (persist_enable), persisted counter, timer in a game mode"]
 STUBS = ["event loop (SimLoop: virtual time, stalls, tie order)", "clock (SimClock)", "virtual hardware platform",
          "in-memory data manager"]
 ASSUMPTIONS = ["call_soon FIFO order is kept (asyncio guarantees it)",
                "time does not advance inside one loop iteration; lateness only through injected stalls",
-               "no game is running (game modes are only checked for refusal)"]
+               "games are played without ball devices (fake playfield.add_ball, drains through the ball_drain event); a game is "
+               "only ended after its first ball started (end_game during game start is C06's finding F1)"]
 STATE_ABSTRACTION = "(per mode last lifecycle event, number of outstanding holds, bus quiet?)"
 
 TEST_MODES = ["plain", "hi", "lo", "wq", "dev", "players", "coded", "gm", "gshots"]
